@@ -2,6 +2,14 @@
   C14 — a more severe metric value never lowers a score (where the standard is monotone).
 -/
 import Cvss.Model.Any
+import Cvss.Spec.V2
+import Cvss.Spec.V3
+import Cvss.Lemmas.Mono
+import Cvss.Props.C14Tables2
+import Cvss.Props.C14Tables3
+import Cvss.Props.C14Tables3a
+import Cvss.Props.C14Tables3b
+import Cvss.Props.C14Tables3c
 namespace Cvss.Props.C14
 open Cvss Cvss.Model
 
@@ -30,6 +38,305 @@ theorem v3_weights_monotone :
       (c!"MAV", [c!"P", c!"L", c!"A", c!"N"]), (c!"MAC", [c!"H", c!"L"]), (c!"MPR", [c!"H", c!"L", c!"N"]),
       (c!"MUI", [c!"R", c!"N"]), (c!"MC", [c!"N", c!"L", c!"H"]), (c!"MI", [c!"N", c!"L", c!"H"]),
       (c!"MA", [c!"N", c!"L", c!"H"])].all fun (m, o) => monotoneRow Gen.V3.values m o) = true := by
+  decide +kernel
+
+/-! ### monotonicity of the specification's equations (the constructed objects' scores ARE these
+    functions of the assignment read off the input: C01, C03) -/
+
+/-- the assignment `a` with metric `k` set to `v` -/
+def upd (a : Str → Str) (k v : Str) : Str → Str := fun j => if j = k then v else a j
+
+/-- legal v2 assignment: every metric carries a token of its row of the guide's table -/
+def Legal2 (a : Str → Str) : Prop := ∀ p ∈ Spec.V2.weights, (lookup (a p.1) p.2).isSome
+
+/-- single severity steps of the v2 base metrics, least → most severe -/
+def steps2base : List (Str × Str × Str) :=
+  [(c!"AV", c!"L", c!"A"), (c!"AV", c!"A", c!"N"), (c!"AC", c!"H", c!"M"), (c!"AC", c!"M", c!"L"),
+   (c!"Au", c!"M", c!"S"), (c!"Au", c!"S", c!"N"), (c!"C", c!"N", c!"P"), (c!"C", c!"P", c!"C"),
+   (c!"I", c!"N", c!"P"), (c!"I", c!"P", c!"C"), (c!"A", c!"N", c!"P"), (c!"A", c!"P", c!"C")]
+
+/-- … of the v2 temporal metrics; ND counts as its equivalent (E:H, RL:U, RC:C), so ND is at the top -/
+def steps2temporal : List (Str × Str × Str) :=
+  [(c!"E", c!"U", c!"POC"), (c!"E", c!"POC", c!"F"), (c!"E", c!"F", c!"H"), (c!"E", c!"F", c!"ND"),
+   (c!"RL", c!"OF", c!"TF"), (c!"RL", c!"TF", c!"W"), (c!"RL", c!"W", c!"U"), (c!"RL", c!"W", c!"ND"),
+   (c!"RC", c!"UC", c!"UR"), (c!"RC", c!"UR", c!"C"), (c!"RC", c!"UR", c!"ND")]
+
+/-- order on optional scores used for "never lowers a score": compared only when both are defined -/
+def leOpt (x y : Option Rat) : Prop := ∀ u v, x = some u → y = some v → u ≤ v
+
+/-! helper facts for v2 (the general lemmas are in `Lemmas/Mono.lean`; `upd` is `Lemmas.Mono.upd`) -/
+
+open Cvss.Lemmas.Mono in
+theorem v2_w_nonneg (m v : Str) : 0 ≤ Spec.V2.w m v := by
+  unfold Spec.V2.w
+  cases hrow : lookup m Spec.V2.weights with
+  | none => exact le_refl _
+  | some row =>
+    simp only
+    cases hv : lookup v row with
+    | none => simp
+    | some x =>
+      simp only [Option.getD_some]
+      have h : Spec.V2.weights.all (fun p => p.2.all (fun q => decide (0 ≤ q.2))) = true := by
+        decide +kernel
+      have h1 := List.all_eq_true.mp h _ (Cvss.Lemmas.V2.lookup_mem hrow)
+      have h2 := List.all_eq_true.mp h1 _ (Cvss.Lemmas.V2.lookup_mem hv)
+      simpa using h2
+
+open Cvss.Lemmas.Mono in
+theorem v2_tf_upd_of_not_mem (a : Str → Str) {k : Str} (v : Str)
+    (h : k ∉ [c!"E", c!"RL", c!"RC"]) :
+    Spec.V2.temporalFactor (upd a k v) = Spec.V2.temporalFactor a := by
+  have h1 : c!"E" ≠ k := fun e => h (e ▸ by decide)
+  have h2 : c!"RL" ≠ k := fun e => h (e ▸ by decide)
+  have h3 : c!"RC" ≠ k := fun e => h (e ▸ by decide)
+  unfold Spec.V2.temporalFactor Spec.V2.wa
+  change Spec.V2.w _ (Lemmas.Mono.upd a k v _) * Spec.V2.w _ (Lemmas.Mono.upd a k v _)
+    * Spec.V2.w _ (Lemmas.Mono.upd a k v _) = _
+  rw [upd_ne a v h1, upd_ne a v h2, upd_ne a v h3]
+
+open Cvss.Lemmas.Mono in
+theorem v2_tf_step {a : Str → Str} {k lo hi : Str} (hs : (k, lo, hi) ∈ steps2temporal)
+    (hk : a k = lo) : Spec.V2.temporalFactor a ≤ Spec.V2.temporalFactor (upd a k hi) := by
+  simp only [steps2temporal, List.mem_cons, Prod.mk.injEq, List.mem_nil_iff, or_false] at hs
+  change _ ≤ Spec.V2.temporalFactor (Lemmas.Mono.upd a k hi)
+  rcases hs with ⟨rfl, rfl, rfl⟩ | ⟨rfl, rfl, rfl⟩ | ⟨rfl, rfl, rfl⟩ | ⟨rfl, rfl, rfl⟩ |
+    ⟨rfl, rfl, rfl⟩ | ⟨rfl, rfl, rfl⟩ | ⟨rfl, rfl, rfl⟩ | ⟨rfl, rfl, rfl⟩ |
+    ⟨rfl, rfl, rfl⟩ | ⟨rfl, rfl, rfl⟩ | ⟨rfl, rfl, rfl⟩
+  all_goals
+    unfold Spec.V2.temporalFactor Spec.V2.wa
+    simp (disch := decide) only [upd_ne, upd_self]
+    rw [hk]
+    first
+    | exact mul_le_mul_of_nonneg_right (mul_le_mul_of_nonneg_right (by decide +kernel)
+        (v2_w_nonneg _ _)) (v2_w_nonneg _ _)
+    | exact mul_le_mul_of_nonneg_right (mul_le_mul_of_nonneg_left (by decide +kernel)
+        (v2_w_nonneg _ _)) (v2_w_nonneg _ _)
+    | exact mul_le_mul_of_nonneg_left (by decide +kernel)
+        (mul_nonneg (v2_w_nonneg _ _) (v2_w_nonneg _ _))
+
+/-- v2: a more severe base metric never lowers the base score nor the temporal score -/
+theorem v2_base_step_mono (a : Str → Str) (ha : Legal2 a) (k lo hi : Str) (hs : (k, lo, hi) ∈ steps2base) (hk : a k = lo) :
+    Spec.V2.baseScore a ≤ Spec.V2.baseScore (upd a k hi) ∧
+    leOpt (Spec.V2.temporalScore a) (Spec.V2.temporalScore (upd a k hi)) := by
+  have hkeys : k ∈ Lemmas.Mono.V2.keys ∧ k ∉ [c!"E", c!"RL", c!"RC"] :=
+    of_decide_eq_true (List.all_eq_true.mp (by decide : steps2base.all
+      (fun s => decide (s.1 ∈ Lemmas.Mono.V2.keys ∧ s.1 ∉ [c!"E", c!"RL", c!"RC"])) = true) _ hs)
+  have hb : Spec.V2.baseScore a ≤ Spec.V2.baseScore (upd a k hi) := by
+    rw [Lemmas.Mono.V2.baseScore_eq, Lemmas.Mono.V2.baseScore_eq]
+    exact Lemmas.Mono.stepChk_spec C14Tables2.base_steps (by decide) a
+      (Lemmas.Mono.V2.legal_rows ha) hs hkeys.1 hk
+  refine ⟨hb, ?_⟩
+  intro u v hu hv
+  refine Lemmas.Mono.V2.temporal_le_of ?_ u v hu hv
+  rw [v2_tf_upd_of_not_mem a hi hkeys.2]
+  exact mul_le_mul_of_nonneg_right hb (Lemmas.V2.temporalFactor_bounds ha).1
+
+set_option linter.unusedVariables false in
+/-- v2: a more severe temporal metric never lowers the temporal score (and leaves the base score alone) -/
+theorem v2_temporal_step_mono (a : Str → Str) (ha : Legal2 a) (k lo hi : Str) (hs : (k, lo, hi) ∈ steps2temporal)
+    (hk : a k = lo) :
+    Spec.V2.baseScore (upd a k hi) = Spec.V2.baseScore a ∧
+    leOpt (Spec.V2.temporalScore a) (Spec.V2.temporalScore (upd a k hi)) := by
+  have hkeys : k ∉ Lemmas.Mono.V2.keys :=
+    of_decide_eq_true (List.all_eq_true.mp (by decide : steps2temporal.all
+      (fun s => decide (s.1 ∉ Lemmas.Mono.V2.keys)) = true) _ hs)
+  have hb : Spec.V2.baseScore (upd a k hi) = Spec.V2.baseScore a :=
+    Lemmas.Mono.V2.baseScore_upd_of_not_mem a hi hkeys
+  refine ⟨hb, ?_⟩
+  intro u v hu hv
+  refine Lemmas.Mono.V2.temporal_le_of ?_ u v hu hv
+  rw [hb]
+  exact mul_le_mul_of_nonneg_left (v2_tf_step hs hk) (Lemmas.Mono.V2.baseScore_nonneg a)
+
+/-- legal v3 assignment -/
+def Legal3 (a : Str → Str) : Prop :=
+  (∀ p ∈ Spec.V3.weights, (lookup (a p.1) p.2).isSome) ∧
+  (a c!"PR" = c!"N" ∨ a c!"PR" = c!"L" ∨ a c!"PR" = c!"H") ∧ (a c!"S" = c!"U" ∨ a c!"S" = c!"C") ∧
+  (∀ M ∈ [c!"MAV", c!"MAC", c!"MUI", c!"MC", c!"MI", c!"MA"],
+      a M = c!"X" ∨ (lookup (a M) ((lookup (M.drop 1) Spec.V3.weights).getD [])).isSome) ∧
+  (a c!"MPR" = c!"X" ∨ a c!"MPR" = c!"N" ∨ a c!"MPR" = c!"L" ∨ a c!"MPR" = c!"H") ∧
+  (a c!"MS" = c!"X" ∨ a c!"MS" = c!"U" ∨ a c!"MS" = c!"C")
+
+def steps3base : List (Str × Str × Str) :=
+  [(c!"AV", c!"P", c!"L"), (c!"AV", c!"L", c!"A"), (c!"AV", c!"A", c!"N"), (c!"AC", c!"H", c!"L"),
+   (c!"PR", c!"H", c!"L"), (c!"PR", c!"L", c!"N"), (c!"UI", c!"R", c!"N"), (c!"S", c!"U", c!"C"),
+   (c!"C", c!"N", c!"L"), (c!"C", c!"L", c!"H"), (c!"I", c!"N", c!"L"), (c!"I", c!"L", c!"H"),
+   (c!"A", c!"N", c!"L"), (c!"A", c!"L", c!"H")]
+
+/-- X counts as its equivalent (E:H, RL:U, RC:C): X is at the top -/
+def steps3temporal : List (Str × Str × Str) :=
+  [(c!"E", c!"U", c!"P"), (c!"E", c!"P", c!"F"), (c!"E", c!"F", c!"H"), (c!"E", c!"F", c!"X"),
+   (c!"RL", c!"O", c!"T"), (c!"RL", c!"T", c!"W"), (c!"RL", c!"W", c!"U"), (c!"RL", c!"W", c!"X"),
+   (c!"RC", c!"U", c!"R"), (c!"RC", c!"R", c!"C"), (c!"RC", c!"R", c!"X")]
+
+/-- requirement steps; X counts as Medium -/
+def steps3req : List (Str × Str × Str) :=
+  [(c!"CR", c!"L", c!"M"), (c!"CR", c!"M", c!"H"), (c!"CR", c!"L", c!"X"), (c!"CR", c!"X", c!"H"),
+   (c!"IR", c!"L", c!"M"), (c!"IR", c!"M", c!"H"), (c!"IR", c!"L", c!"X"), (c!"IR", c!"X", c!"H"),
+   (c!"AR", c!"L", c!"M"), (c!"AR", c!"M", c!"H"), (c!"AR", c!"L", c!"X"), (c!"AR", c!"X", c!"H")]
+
+/-- steps of the Modified metrics, on their EFFECTIVE value (an undefined Modified metric counts as
+    its base metric's value): exploitability and scope … -/
+def steps3modExpl : List (Str × Str × Str) :=
+  [(c!"MAV", c!"P", c!"L"), (c!"MAV", c!"L", c!"A"), (c!"MAV", c!"A", c!"N"), (c!"MAC", c!"H", c!"L"),
+   (c!"MPR", c!"H", c!"L"), (c!"MPR", c!"L", c!"N"), (c!"MUI", c!"R", c!"N"), (c!"MS", c!"U", c!"C")]
+/-- … and impact -/
+def steps3modImpact : List (Str × Str × Str) :=
+  [(c!"MC", c!"N", c!"L"), (c!"MC", c!"L", c!"H"), (c!"MI", c!"N", c!"L"), (c!"MI", c!"L", c!"H"),
+   (c!"MA", c!"N", c!"L"), (c!"MA", c!"L", c!"H")]
+
+/-- v3 (both minor versions): a more severe base metric never lowers the base or the temporal score -/
+theorem v3_base_step_mono (a : Str → Str) (ha : Legal3 a) (k lo hi : Str) (hs : (k, lo, hi) ∈ steps3base) (hk : a k = lo) :
+    Spec.V3.baseScore a ≤ Spec.V3.baseScore (upd a k hi) ∧
+    Spec.V3.temporalScore a ≤ Spec.V3.temporalScore (upd a k hi) := by
+  have hkeys : k ∈ Lemmas.Mono.V3.keys ∧ k ∉ [c!"E", c!"RL", c!"RC"] :=
+    of_decide_eq_true (List.all_eq_true.mp (by decide : steps3base.all
+      (fun s => decide (s.1 ∈ Lemmas.Mono.V3.keys ∧ s.1 ∉ [c!"E", c!"RL", c!"RC"])) = true) _ hs)
+  have hb : Spec.V3.baseScore a ≤ Spec.V3.baseScore (upd a k hi) := by
+    rw [Lemmas.Mono.V3.baseScore_eq, Lemmas.Mono.V3.baseScore_eq]
+    exact Lemmas.Mono.stepChk_spec C14Tables3.base_steps (by decide) a
+      (Lemmas.Mono.V3.legal_rows ha) hs hkeys.1 hk
+  refine ⟨hb, ?_⟩
+  unfold Spec.V3.temporalScore
+  apply Lemmas.Mono.roundup_mono
+  have htf : Spec.V3.temporalFactor (upd a k hi) = Spec.V3.temporalFactor a :=
+    Lemmas.Mono.V3.temporalFactor_upd_of_not_mem a hi hkeys.2
+  rw [htf]
+  exact mul_le_mul_of_nonneg_right hb (Lemmas.Mono.V3.temporalFactor_nonneg a)
+
+set_option linter.unusedVariables false in
+/-- v3: a more severe temporal metric never lowers the temporal score nor the environmental score
+    (either minor version) -/
+theorem v3_temporal_step_mono (minor : Nat) (a : Str → Str) (ha : Legal3 a) (k lo hi : Str)
+    (hs : (k, lo, hi) ∈ steps3temporal) (hk : a k = lo) :
+    Spec.V3.temporalScore a ≤ Spec.V3.temporalScore (upd a k hi) ∧
+    Spec.V3.environmentalScore minor a ≤ Spec.V3.environmentalScore minor (upd a k hi) := by
+  have hkeys : k ∈ Lemmas.Mono.V3.otherKeys ∧ k ∉ Lemmas.Mono.V3.keys :=
+    Lemmas.Mono.V3.stepsTemporal_key hs
+  constructor
+  · unfold Spec.V3.temporalScore
+    apply Lemmas.Mono.roundup_mono
+    have hb : Spec.V3.baseScore (upd a k hi) = Spec.V3.baseScore a :=
+      Lemmas.Mono.V3.baseScore_upd_of_not_mem a hi hkeys.2
+    rw [hb]
+    exact mul_le_mul_of_nonneg_left (Lemmas.Mono.V3.tf_step hs hk)
+      (Lemmas.Mono.V3.baseScore_nonneg a)
+  · rw [Lemmas.Mono.V3.env_eq, Lemmas.Mono.V3.env_eq]
+    have e : Lemmas.Mono.V3.E (upd a k hi) = Lemmas.Mono.upd (Lemmas.Mono.V3.E a) k hi :=
+      Lemmas.Mono.V3.E_upd_other hi hkeys.1
+    rw [e]
+    exact Lemmas.Mono.V3.envE_step_temporal minor _ hs
+      ((Lemmas.Mono.V3.E_other hkeys.1).trans hk)
+
+/-- v3.1: the environmental score never decreases under a more severe base metric (which reaches it
+    through undefined Modified metrics), requirement, or Modified metric (step on the effective value) -/
+theorem v31_env_base_step_mono (minor : Nat) (hm : minor ≠ 0) (a : Str → Str) (ha : Legal3 a) (k lo hi : Str)
+    (hs : (k, lo, hi) ∈ steps3base) (hk : a k = lo) :
+    Spec.V3.environmentalScore minor a ≤ Spec.V3.environmentalScore minor (upd a k hi) := by
+  have hkeys : k ∈ Lemmas.Mono.V3.keys :=
+    of_decide_eq_true (List.all_eq_true.mp (by decide : steps3base.all
+      (fun s => decide (s.1 ∈ Lemmas.Mono.V3.keys)) = true) _ hs)
+  rw [Lemmas.Mono.V3.env_eq, Lemmas.Mono.V3.env_eq]
+  by_cases hX : a ('M' :: k) = Spec.V3.X
+  · have e : Lemmas.Mono.V3.E (upd a k hi) = Lemmas.Mono.upd (Lemmas.Mono.V3.E a) k hi :=
+      Lemmas.Mono.V3.E_upd_base_X hi hkeys hX
+    rw [e]
+    have hk' : Lemmas.Mono.V3.E a k = lo := by
+      rw [Lemmas.Mono.V3.E_base hkeys]; unfold Spec.V3.eff; rw [if_pos hX, hk]
+    exact Lemmas.Mono.V3.envE_step31 hm C14Tables3a.prodChk C14Tables3a.missChk
+      C14Tables3a.impactChk C14Tables3c.scopeChk1 (Lemmas.Mono.V3.legalE_of_legal ha)
+      (List.mem_append_left _ hs) hk'
+  · have e : Lemmas.Mono.V3.E (upd a k hi) = Lemmas.Mono.V3.E a :=
+      Lemmas.Mono.V3.E_upd_base_nX hi hkeys hX
+    rw [e]
+
+theorem v31_env_req_step_mono (minor : Nat) (hm : minor ≠ 0) (a : Str → Str) (ha : Legal3 a) (k lo hi : Str)
+    (hs : (k, lo, hi) ∈ steps3req) (hk : a k = lo) :
+    Spec.V3.environmentalScore minor a ≤ Spec.V3.environmentalScore minor (upd a k hi) := by
+  have hkeys : k ∈ Lemmas.Mono.V3.otherKeys :=
+    of_decide_eq_true (List.all_eq_true.mp (by decide : steps3req.all
+      (fun s => decide (s.1 ∈ Lemmas.Mono.V3.otherKeys)) = true) _ hs)
+  rw [Lemmas.Mono.V3.env_eq, Lemmas.Mono.V3.env_eq]
+  have e : Lemmas.Mono.V3.E (upd a k hi) = Lemmas.Mono.upd (Lemmas.Mono.V3.E a) k hi :=
+    Lemmas.Mono.V3.E_upd_other hi hkeys
+  rw [e]
+  exact Lemmas.Mono.V3.envE_step31 hm C14Tables3a.prodChk C14Tables3a.missChk
+    C14Tables3a.impactChk C14Tables3c.scopeChk1 (Lemmas.Mono.V3.legalE_of_legal ha)
+    (List.mem_append_right _ hs) ((Lemmas.Mono.V3.E_other hkeys).trans hk)
+
+theorem v31_env_modified_step_mono (minor : Nat) (hm : minor ≠ 0) (a : Str → Str) (ha : Legal3 a) (M lo hi : Str)
+    (hs : (M, lo, hi) ∈ steps3modExpl ++ steps3modImpact) (hk : Spec.V3.eff a M (M.drop 1) = lo) :
+    Spec.V3.environmentalScore minor a ≤ Spec.V3.environmentalScore minor (upd a M hi) := by
+  obtain ⟨hM, hkeys, hhi, hs'⟩ : M = 'M' :: M.drop 1 ∧ M.drop 1 ∈ Lemmas.Mono.V3.keys ∧
+      hi ≠ Spec.V3.X ∧ (M.drop 1, lo, hi) ∈ steps3base :=
+    of_decide_eq_true (List.all_eq_true.mp (by decide : (steps3modExpl ++ steps3modImpact).all
+      (fun s => decide (s.1 = 'M' :: s.1.drop 1 ∧ s.1.drop 1 ∈ Lemmas.Mono.V3.keys ∧
+        s.2.2 ≠ Spec.V3.X ∧ (s.1.drop 1, s.2.1, s.2.2) ∈ steps3base)) = true) _ hs)
+  generalize M.drop 1 = k at *
+  subst hM
+  rw [Lemmas.Mono.V3.env_eq, Lemmas.Mono.V3.env_eq]
+  have e : Lemmas.Mono.V3.E (upd a ('M' :: k) hi) = Lemmas.Mono.upd (Lemmas.Mono.V3.E a) k hi :=
+    Lemmas.Mono.V3.E_upd_mod hkeys hhi
+  rw [e]
+  exact Lemmas.Mono.V3.envE_step31 hm C14Tables3a.prodChk C14Tables3a.missChk
+    C14Tables3a.impactChk C14Tables3c.scopeChk1 (Lemmas.Mono.V3.legalE_of_legal ha)
+    (List.mem_append_left _ hs') ((Lemmas.Mono.V3.E_base hkeys).trans hk)
+
+/-- v3.0: the environmental score is monotone in the exploitability and scope metrics (base ones reaching it
+    through undefined Modified metrics, and Modified ones); it is EXEMPT for the impact and requirement
+    metrics, where the 3.0 standard itself is not monotone (see `v30_env_not_monotone`) -/
+theorem v30_env_expl_step_mono (a : Str → Str) (ha : Legal3 a) (k lo hi : Str)
+    (hs : (k, lo, hi) ∈ steps3base.take 8) (hk : a k = lo) :
+    Spec.V3.environmentalScore 0 a ≤ Spec.V3.environmentalScore 0 (upd a k hi) := by
+  have hkeys : k ∈ Lemmas.Mono.V3.keys :=
+    of_decide_eq_true (List.all_eq_true.mp (by decide : (steps3base.take 8).all
+      (fun s => decide (s.1 ∈ Lemmas.Mono.V3.keys)) = true) _ hs)
+  rw [Lemmas.Mono.V3.env_eq, Lemmas.Mono.V3.env_eq]
+  by_cases hX : a ('M' :: k) = Spec.V3.X
+  · have e : Lemmas.Mono.V3.E (upd a k hi) = Lemmas.Mono.upd (Lemmas.Mono.V3.E a) k hi :=
+      Lemmas.Mono.V3.E_upd_base_X hi hkeys hX
+    rw [e]
+    have hk' : Lemmas.Mono.V3.E a k = lo := by
+      rw [Lemmas.Mono.V3.E_base hkeys]; unfold Spec.V3.eff; rw [if_pos hX, hk]
+    exact Lemmas.Mono.V3.envE_step30 C14Tables3a.prodChk C14Tables3a.missChk
+      C14Tables3b.scopeChk0 (Lemmas.Mono.V3.legalE_of_legal ha) hs hk'
+  · have e : Lemmas.Mono.V3.E (upd a k hi) = Lemmas.Mono.V3.E a :=
+      Lemmas.Mono.V3.E_upd_base_nX hi hkeys hX
+    rw [e]
+
+theorem v30_env_modified_step_mono (a : Str → Str) (ha : Legal3 a) (M lo hi : Str)
+    (hs : (M, lo, hi) ∈ steps3modExpl) (hk : Spec.V3.eff a M (M.drop 1) = lo) :
+    Spec.V3.environmentalScore 0 a ≤ Spec.V3.environmentalScore 0 (upd a M hi) := by
+  obtain ⟨hM, hkeys, hhi, hs'⟩ : M = 'M' :: M.drop 1 ∧ M.drop 1 ∈ Lemmas.Mono.V3.keys ∧
+      hi ≠ Spec.V3.X ∧ (M.drop 1, lo, hi) ∈ steps3base.take 8 :=
+    of_decide_eq_true (List.all_eq_true.mp (by decide : steps3modExpl.all
+      (fun s => decide (s.1 = 'M' :: s.1.drop 1 ∧ s.1.drop 1 ∈ Lemmas.Mono.V3.keys ∧
+        s.2.2 ≠ Spec.V3.X ∧ (s.1.drop 1, s.2.1, s.2.2) ∈ steps3base.take 8)) = true) _ hs)
+  generalize M.drop 1 = k at *
+  subst hM
+  rw [Lemmas.Mono.V3.env_eq, Lemmas.Mono.V3.env_eq]
+  have e : Lemmas.Mono.V3.E (upd a ('M' :: k) hi) = Lemmas.Mono.upd (Lemmas.Mono.V3.E a) k hi :=
+    Lemmas.Mono.V3.E_upd_mod hkeys hhi
+  rw [e]
+  exact Lemmas.Mono.V3.envE_step30 C14Tables3a.prodChk C14Tables3a.missChk
+    C14Tables3b.scopeChk0 (Lemmas.Mono.V3.legalE_of_legal ha) hs'
+    ((Lemmas.Mono.V3.E_base hkeys).trans hk)
+
+/-- the witness: CVSS:3.0/AV:P/AC:H/PR:H/UI:R/S:C/C:N/I:L/A:H/CR:L/IR:H/AR:H, everything else X
+    (environmental score 6.9; with C:L instead of C:N it is 6.8) -/
+def witness30 : Str → Str := fun k =>
+  if k = c!"AV" then c!"P" else if k = c!"AC" then c!"H" else if k = c!"PR" then c!"H"
+  else if k = c!"UI" then c!"R" else if k = c!"S" then c!"C" else if k = c!"C" then c!"N"
+  else if k = c!"I" then c!"L" else if k = c!"A" then c!"H" else if k = c!"CR" then c!"L"
+  else if k = c!"IR" then c!"H" else if k = c!"AR" then c!"H" else c!"X"
+
+/-- witness of the exemption: in v3.0 a more severe requirement can LOWER the environmental score -/
+theorem v30_env_not_monotone :
+    ∃ a : Str → Str, Legal3 a ∧ ∃ k lo hi, (k, lo, hi) ∈ steps3req ++ steps3modImpact ++ steps3base.drop 8 ∧ a k = lo ∧
+      Spec.V3.environmentalScore 0 (upd a k hi) < Spec.V3.environmentalScore 0 a := by
+  refine ⟨witness30, ?_, c!"C", c!"N", c!"L", by decide, by decide, by decide +kernel⟩
+  unfold Legal3
   decide +kernel
 
 end Cvss.Props.C14
